@@ -14,6 +14,7 @@ from .interp import (
     ClassVal,
     Dead,
     EnvObj,
+    Choice,
     ExtVal,
     FuncVal,
     Inst,
@@ -79,7 +80,37 @@ class CallMixin(object):
         st.heap[env.id].captured = True
         return LambdaVal(node, env, module)
 
+    def call_choice(self, st, fn, args, kwargs, node, module):
+        """Call of a callable selected by a condition: both alternatives, each under its condition,
+        joined like the branches of an if statement."""
+        d = self.decide(st, fn.cond)
+        if d is True:
+            return self.call(st, fn.a, args, kwargs, node, module)
+        if d is False:
+            return self.call(st, fn.b, args, kwargs, node, module)
+        res = []
+        for cond, alt in ((fn.cond, fn.a), (mk_not(fn.cond), fn.b)):
+            s2 = st.copy()
+            try:
+                self.assume(s2, cond)
+                s2.pc.append(cond)
+                v = self.call(s2, alt, args, kwargs, node, module)
+                res.append((s2, v))
+            except Dead:
+                pass
+        if not res:
+            raise Dead()
+        mstate, mval = res[0]
+        for s2, v2 in res[1:]:
+            mstate, mval = self.merge_states(mstate, s2, mval, v2)
+        if len(res) == 1:
+            del mstate.pc[len(st.pc) :]
+        st.heap, st.pc, st.dom, st.facts, st.constraints = (mstate.heap, mstate.pc, mstate.dom, mstate.facts, mstate.constraints)
+        return mval
+
     def call(self, st, fn, args, kwargs, node, module):
+        if isinstance(fn, Choice):
+            return self.call_choice(st, fn, args, kwargs, node, module)
         if isinstance(fn, FuncVal):
             return self.inline(st, fn.func, fn.env, args, kwargs, node, module)
         if isinstance(fn, BoundMeth):
@@ -103,6 +134,11 @@ class CallMixin(object):
         raise AnalysisError("E5.call", "call of %r" % (fn,), node, module)
 
     def construct(self, st, cls, args, kwargs, node, module):
+        hook = getattr(self, "construct_hook", None)
+        if hook is not None:
+            r = hook(st, cls, args, kwargs, node, module)
+            if r is not None:
+                return r
         bases = [b.id for b in cls.node.bases if isinstance(b, ast.Name)]
         if cls.module.name == "exceptions" or any(b.endswith("Error") or b == "Exception" for b in bases):
             return App("exc", tuple(a for a in args if isinstance(a, Term)), (cls.name,))
@@ -199,6 +235,7 @@ class CallMixin(object):
             # a generator function: the values it yields, in order, as a one-shot sequence
             env.gen_items = []
             env.gen_pc0 = len(st.pc)
+            gen_ev0 = len(self.events)
         try:
             outs = self.exec_block(func.node.body, st, e)
         finally:
@@ -210,6 +247,11 @@ class CallMixin(object):
                     o.value = None
             if len(outs) != 1:
                 raise AnalysisError("E5.expr", "generator function with several exits", node, module)
+            # the body is run eagerly: that is the generator's behaviour only if nothing in it can
+            # raise (an exception surfaces at the consuming next() and ends the generator)
+            for e_ in self.events[gen_ev0:]:
+                if e_.kind in ("hazard", "raise", "may_raise", "none_arith"):
+                    raise AnalysisError("E5.expr", "generator function %s whose body can raise is not modelled" % func.qualname, node, module)
         rets = []
         for o in outs:
             if o.status == "return":
@@ -242,6 +284,11 @@ class CallMixin(object):
 
     # ------------------------------------------------------------------ builtins
     def call_builtin(self, st, name, args, kwargs, node, module):
+        hook = getattr(self, "builtin_hook", None)
+        if hook is not None:
+            r = hook(st, name, args, kwargs, node, module)
+            if r is not None:
+                return r
         fo = st.folder()
         if name == "float":
             (x,) = args
@@ -342,6 +389,11 @@ class CallMixin(object):
             items = self.iter_values(st, args[0], node, module)
             lo = ListObj(self.sort_items(st, items, kwargs, node, module))
             return self.alloc(st, lo)
+        if name == "iter" and len(args) == 2:
+            # iter(callable, sentinel): consumed by s_For as `while True: x = callable(); if x == sentinel: (else) break`
+            from .interp import CallIterObj
+
+            return self.alloc(st, CallIterObj(args[0], args[1]))
         if name == "iter" and len(args) == 1:
             items = self.iter_values(st, args[0], node, module)
             lo = ListObj(list(items))
@@ -459,7 +511,7 @@ class CallMixin(object):
         nrows = 1
         for sl in set(x for a in atoms if isinstance(a, Fin) for x in a.slots):
             nrows *= len(fo.domain(sl))
-        if nrows > 8192:
+        if nrows > getattr(self, "bool_fold_limit", 8192):
             return prop_reduce(c)
         slots = set()
         for a in atoms:
@@ -480,17 +532,19 @@ class CallMixin(object):
             if x.op == "not":
                 v = ev(x.args[0], r)
                 return MISS if v is MISS else (not v)
-            # short-circuit semantics: a later operand may be undefined (computed under the
-            # assumption that the earlier ones did not decide the result)
+            # an operand may be undefined on this row (it was computed under the assumption that
+            # another operand did not decide the result): Kleene connectives, whatever the order
+            miss = False
             for a in x.args:
                 v = ev(a, r)
                 if v is MISS:
-                    return MISS
+                    miss = True
+                    continue
                 if x.op == "and" and not v:
                     return False
                 if x.op == "or" and v:
                     return True
-            return x.op == "and"
+            return MISS if miss else x.op == "and"
 
         table = {}
         for r in rows:
@@ -609,6 +663,11 @@ class CallMixin(object):
 
     # ------------------------------------------------------------------ external calls
     def call_ext(self, st, dotted, args, kwargs, node, module):
+        hook = getattr(self, "ext_hook", None)
+        if hook is not None:
+            r = hook(st, dotted, args, kwargs, node, module)
+            if r is not None:
+                return r
         if dotted == "decimal.Decimal":
             (x,) = args
             if isinstance(x, Const):
@@ -636,6 +695,21 @@ class CallMixin(object):
             if p.kind in ("flt", "mixed"):
                 self.event("decimal_from_float", node, module, st)
             return P.atom(App("Decimal", (p,)), "dec")
+        if dotted == "functools.reduce" and len(args) in (2, 3) and not kwargs:
+            items = list(self.iter_values(st, args[1], node, module))
+            if not all(isinstance(g, Const) and truth_const(g.v) for g, _ in items):
+                raise AnalysisError("E5.call", "reduce() over conditionally present elements", node, module)
+            vals = [v for _, v in items]
+            if len(args) == 3:
+                acc = args[2]
+            elif vals:
+                acc, vals = vals[0], vals[1:]
+            else:
+                self.hazard(st, "TypeError", node, module, TRUE, "reduce() of an empty sequence without initial value")
+                raise Dead()
+            for v in vals:
+                acc = self.call(st, args[0], [acc, v], {}, node, module)
+            return acc
         if dotted == "collections.defaultdict":
             if len(args) > 1 or kwargs:
                 raise AnalysisError("E5.call", "defaultdict() with initial content", node, module)
@@ -665,6 +739,11 @@ class CallMixin(object):
 
     # ------------------------------------------------------------------ methods on abstract values
     def call_method(self, st, recv, name, args, kwargs, node, module):
+        hook = getattr(self, "method_hook", None)
+        if hook is not None:
+            r = hook(st, recv, name, args, kwargs, node, module)
+            if r is not None:
+                return r
         fo = st.folder()
         if isinstance(recv, Ref):
             o = st.heap[recv.id]
@@ -866,6 +945,11 @@ class CallMixin(object):
 
     def sort_items(self, st, items, kwargs, node, module):
         """sorted()/list.sort() on a list whose sort keys are constants."""
+        hook = getattr(self, "sort_hook", None)
+        if hook is not None:
+            r = hook(st, items, kwargs, node, module)
+            if r is not None:
+                return r
         keyf = kwargs.get("key")
         rev = kwargs.get("reverse")
         if rev is not None and not isinstance(rev, Const):
@@ -1328,8 +1412,33 @@ class StmtMixin(object):
             normals = [Outcome("normal", cur)]
         return rest + normals
 
+    def for_calliter(self, s, st, env, module, obj):
+        """`for x in iter(f, sentinel): body else: orelse` is the retry loop
+        `while True: t = f(); if t == sentinel: orelse; break; x = t; body`."""
+        for sub in s.orelse:
+            for n in ast.walk(sub):
+                if isinstance(n, (ast.Break, ast.Continue)):
+                    raise AnalysisError("E4.stmt", "break/continue in the else branch of a sentinel loop", s, module)
+        uid = "%d_%d" % (s.lineno, s.col_offset)
+        fn, sent, tmp = "__iterfn_" + uid, "__itersent_" + uid, "__itertmp_" + uid
+        st.heap[env.id].vars[fn] = obj.callable
+        st.heap[env.id].vars[sent] = obj.sentinel
+
+        def L(n):
+            return ast.copy_location(n, s)
+
+        call = L(ast.Call(func=L(ast.Name(id=fn, ctx=ast.Load())), args=[], keywords=[]))
+        a1 = L(ast.Assign(targets=[L(ast.Name(id=tmp, ctx=ast.Store()))], value=call))
+        test = L(ast.Compare(left=L(ast.Name(id=tmp, ctx=ast.Load())), ops=[ast.Eq()], comparators=[L(ast.Name(id=sent, ctx=ast.Load()))]))
+        stop = L(ast.If(test=test, body=list(s.orelse) + [L(ast.Break())], orelse=[]))
+        a2 = L(ast.Assign(targets=[s.target], value=L(ast.Name(id=tmp, ctx=ast.Load()))))
+        loop = L(ast.While(test=L(ast.Constant(value=True)), body=[a1, stop, a2] + list(s.body), orelse=[]))
+        return self.s_While(loop, st, env, module)
+
     def s_For(self, s, st, env, module):
         it = self.eval(st, env, s.iter)
+        if isinstance(it, Ref) and st.heap[it.id].kind == "calliter":
+            return self.for_calliter(s, st, env, module, st.heap[it.id])
         try:
             items = self.iter_values(st, it, s, module)
         except NonStatic:
@@ -1486,9 +1595,27 @@ class StmtMixin(object):
         break paths.  Anything else is not interpreted."""
         if not getattr(self, "retry_loops", False):
             raise AnalysisError("E5.stmt", "while loop on an evaluated path", s, module)
-        test = self.eval(st, env, s.test)
-        if self.decide(st, self.truth(st, test, s.test)) is not True or s.orelse:
-            raise AnalysisError("E5.stmt", "while loop whose condition is not constantly true", s, module)
+        if s.orelse:
+            raise AnalysisError("E5.stmt", "while loop with an else branch", s, module)
+        exits = []
+        outs = []
+        again = []
+        test0 = self.truth(st, self.eval(st, env, s.test), s.test)
+        d0 = self.decide(st, test0)
+        if d0 is False:
+            return [Outcome("normal", st)]
+        if d0 is None:
+            # the loop may be skipped altogether
+            skip = st.copy()
+            try:
+                nt = mk_not(test0)
+                self.assume(skip, nt)
+                skip.pc.append(nt)
+                exits.append(skip)
+            except Dead:
+                pass
+            self.assume(st, test0)
+            st.pc.append(test0)
         # names bound by statements of the body (comprehension variables are scoped to the comprehension)
         bound = set()
 
@@ -1503,41 +1630,69 @@ class StmtMixin(object):
         collect(s)
         before = st.copy()
         res = self.exec_block(s.body, st, env)
-        exits = []
-        outs = []
-        again = []
         for o in res:
             if o.status == "break":
                 exits.append(o.state)
             elif o.status in ("normal", "continue"):
-                changed = self.heap_difference(before, o.state, env, bound)
+                # back at the loop head: the condition decides between leaving and asking again
+                s1 = o.state
+                try:
+                    t1 = self.truth(s1, self.eval(s1, env, s.test), s.test)
+                    d1 = self.decide(s1, t1)
+                except Dead:
+                    continue
+                if d1 is False:
+                    exits.append(s1)
+                    continue
+                if d1 is None:
+                    leave = s1.copy()
+                    try:
+                        nt = mk_not(t1)
+                        self.assume(leave, nt)
+                        leave.pc.append(nt)
+                        exits.append(leave)
+                    except Dead:
+                        pass
+                    try:
+                        self.assume(s1, t1)
+                        s1.pc.append(t1)
+                    except Dead:
+                        continue
+                changed = self.heap_difference(before, s1, env, bound)
                 if changed:
-                    self.event("retry_state_change", s, module, o.state, what=changed)
-                again.append(o.state)
+                    self.event("retry_state_change", s, module, s1, what=changed)
+                again.append(s1)
             else:
                 outs.append(o)
         if again and bound and not getattr(self, "_in_stale_probe", False):
             # does the next iteration read a name this one bound?  Probe: a second symbolic
-            # iteration in which those names hold a marker; nothing it produces may depend on it
+            # iteration in which those names hold a marker (unless they provably hold what they
+            # held on first entry); nothing it produces may depend on it
             probe = again[0].copy()
             penv = probe.heap[env.id]
+            benv = before.heap[env.id]
             for nm in bound:
                 if nm in penv.vars:
+                    if nm in benv.vars and self.value_equiv(before, benv.vars[nm], probe, penv.vars[nm]):
+                        continue
                     penv.vars[nm] = Opaque("stale:" + nm)
             n_ev = len(self.events)
             self._in_stale_probe = True
             saved_hook = getattr(self, "input_hook", None)
+            stale = None
             try:
                 if saved_hook is not None:
                     self.input_hook = lambda st_, node_, mod_: saved_hook(st_, node_, mod_, probe=True)
                 try:
+                    tp = self.eval(probe, env, s.test)
+                    if isinstance(tp, Term) and any(d.startswith("opaque:stale:") for d in deps_of(tp)):
+                        stale = sorted(d[len("opaque:stale:") :] for d in deps_of(tp) if d.startswith("opaque:stale:"))[0]
                     pres = self.exec_block(s.body, probe, env)
                 except Dead:
                     pres = []
             finally:
                 self._in_stale_probe = False
                 self.input_hook = saved_hook
-            stale = None
             for o in pres:
                 if o.status != "break":
                     continue
@@ -1569,6 +1724,36 @@ class StmtMixin(object):
                 cur, _ = self.merge_states(cur, x, None, None)
             outs.append(Outcome("normal", cur))
         return outs
+
+    def value_equiv(self, sa, va, sb, vb):
+        """Do two values (each in its own state) provably denote the same thing?  Terms by identity
+        after simplification; lists by their elements once the elements a state's assumptions
+        exclude are dropped."""
+        va, vb = self.simp(sa, va), self.simp(sb, vb)
+        if same(va, vb) and not isinstance(va, Ref):
+            return True
+        if isinstance(va, Ref) and isinstance(vb, Ref):
+            oa, ob = sa.heap.get(va.id), sb.heap.get(vb.id)
+            if oa is None or ob is None or oa.kind != ob.kind or oa.kind not in ("list", "set"):
+                return va.id == vb.id and oa is not None and ob is not None and not self._obj_differs(oa, ob)
+
+            def live(st_, o):
+                out = []
+                for g, x in o.items:
+                    d = self.decide(st_, g) if isinstance(g, Term) else bool(g)
+                    if d is False:
+                        continue
+                    out.append((None if d is True else g, x))
+                return out
+
+            la, lb = live(sa, oa), live(sb, ob)
+            return len(la) == len(lb) and all(ga is None and gb is None and same(self.simp(sa, xa), self.simp(sb, xb)) for (ga, xa), (gb, xb) in zip(la, lb))
+        return False
+
+    def _obj_differs(self, oa, ob):
+        if oa.kind in ("list", "set"):
+            return len(oa.items) != len(ob.items) or any(not same(x, y) for (_, x), (_, y) in zip(oa.items, ob.items))
+        return oa is not ob
 
     def heap_difference(self, a, b, env, ignore_names):
         """Description of the first heap object (other than the loop-local names of the current
@@ -1662,7 +1847,7 @@ class StmtMixin(object):
                 names = self.exception_bases(e.data.get("exc"))
                 target = None
                 for h in s.handlers:
-                    hn = G.handler_names(h)
+                    hn = G.handler_names(h, module)
                     if h.type is None or any(x in names or x.split(".")[-1] in names or x == "*" for x in hn):
                         target = h
                         break
@@ -1733,13 +1918,8 @@ class StmtMixin(object):
             L += 1
         ca = mk_and(A.pc[L:])
         cb = mk_and(B.pc[L:])
-        if isinstance(ca, Const) and truth_const(ca.v):
-            if isinstance(cb, Const):
-                raise AnalysisError("E5.join", "joining states with identical path conditions")
-            c = mk_not(cb)
-        else:
-            c = ca
         M = State(self.space)
+        M.constraints_pending = []
         M.modenvs = dict(A.modenvs)
         M.modenvs.update(B.modenvs)
         M.pc = list(A.pc[:L])
@@ -1752,16 +1932,73 @@ class StmtMixin(object):
             u = tuple(v for v in self.space.dom[s] if v in da or v in db)
             if u != self.space.dom[s]:
                 M.dom[s] = u
+
+        def total(cond):
+            """A path's own condition as a table over the joined domain: on rows its tables do not
+            mention the path is unreachable (they were computed under the path's earlier
+            conditions), so the condition is false there."""
+            f = self.try_fold_bool(M, cond) if isinstance(cond, BoolOp) else cond
+            if isinstance(f, Fin):
+                slots, rows = M.folder().rows(f.slots)
+                if rows is not None:
+                    ix = [slots.index(s_) for s_ in f.slots]
+                    miss = [k for k in (tuple(r[i] for i in ix) for r in rows) if k not in f.table]
+                    if miss:
+                        table = dict(f.table)
+                        for k in miss:
+                            table[k] = False
+                        return Fin(f.slots, table)
+                return f
+            return cond
+
+        if isinstance(ca, Const) and truth_const(ca.v):
+            if isinstance(cb, Const):
+                # neither path recorded a condition of its own (both are joins, or were narrowed by
+                # assumptions only): they are told apart by their domains when exactly one slot
+                # separates them
+                diff = [s_ for s_ in set(A.dom) | set(B.dom) if set(A.dom.get(s_, self.space.dom[s_])) != set(B.dom.get(s_, self.space.dom[s_]))]
+                sep = [s_ for s_ in diff if not (set(A.dom.get(s_, self.space.dom[s_])) & set(B.dom.get(s_, self.space.dom[s_])))]
+                if len(diff) == 1 and len(sep) == 1:
+                    s_ = sep[0]
+                    da = set(A.dom.get(s_, self.space.dom[s_]))
+                    db = set(B.dom.get(s_, self.space.dom[s_]))
+                    c = Fin((s_,), dict(((v_,), v_ in da) for v_ in self.space.dom[s_] if v_ in da or v_ in db))
+                else:
+                    raise AnalysisError("E5.join", "joining states with identical path conditions")
+            else:
+                c = mk_not(total(cb))
+        else:
+            c = total(ca)
+            # the joined state is reached on one of the two paths: when their conditions relate
+            # several slots this is a joint fact the per-slot domains cannot express
+            if not isinstance(cb, Const):
+                try:
+                    tb = total(cb)
+                    if isinstance(c, Fin) and isinstance(tb, Fin) and 1 < len(set(c.slots) | set(tb.slots)) <= 3:
+                        disj = self.try_fold_bool(M, mk_or([c, tb]))
+                        if isinstance(disj, Fin) and len(disj.slots) > 1 and not all(truth_const(v_) for v_ in disj.table.values()):
+                            fact = Fin(disj.slots, dict((k_, bool(truth_const(v_))) for k_, v_ in disj.table.items()))
+                            if all(f_.sortkey() != fact.sortkey() for f_ in M.constraints_pending):
+                                M.constraints_pending.append(fact)
+                except (AnalysisError, KeyError):
+                    pass
         M.facts = A.facts & B.facts
         kb = set(f.sortkey() for f in B.constraints)
-        M.constraints = [f for f in A.constraints if f.sortkey() in kb]
+        M.constraints = [f for f in A.constraints if f.sortkey() in kb] + M.constraints_pending
+        del M.constraints_pending
+        both = []
         for i in set(A.heap) | set(B.heap):
             if i not in B.heap:
                 M.heap[i] = A.heap[i]
             elif i not in A.heap:
                 M.heap[i] = B.heap[i]
             else:
-                M.heap[i] = self.merge_obj(M, c, A.heap[i], B.heap[i])
+                both.append(i)
+        # frames and instances last: joining two of their values may have to look at (and join) the
+        # containers the values refer to, which must already be in the merged heap
+        both.sort(key=lambda i: (A.heap[i].kind in ("env", "inst"), i))
+        for i in both:
+            M.heap[i] = self.merge_obj(M, c, A.heap[i], B.heap[i])
         val = None
         if va is not None or vb is not None:
             val = self.mk_ite(M, c, va, vb)
@@ -1838,6 +2075,8 @@ class StmtMixin(object):
             for g, v in b.items[n:]:
                 o.items.append((mk_and([nc, g]), v))
             return o
+        if a.kind == "calliter" and a is b:
+            return a
         raise AnalysisError("E5.join", "heap object kind %s" % a.kind)
 
 
